@@ -25,7 +25,6 @@ import re
 from concurrent.futures import ThreadPoolExecutor
 
 from ..common import pmap, MachineryError, VERIF, REPO, chunks
-from .. import tracecheck
 
 LEVEL = "model_checking"
 
@@ -39,12 +38,7 @@ CONSTANTS Widths = {widths}
  MaxWords = {maxwords}
  MaxBits = {maxbits}
  Mutant = "{mutant}"
-INVARIANT CrcIsFold
-INVARIANT CrcIsCompute
-INVARIANT RegOfBitStream
-INVARIANT OwnCrcMatches
-INVARIANT OtherTrailerNoMatch
-INVARIANT OwnCrcMatchesDef
+{invs}
 CONSTRAINT Constr
 CHECK_DEADLOCK FALSE
 """
@@ -289,9 +283,44 @@ def res_trace(pspec, out):
     return {"kind": "res", "dw": 8, "p": pjson(pspec), "out": bits(out, pspec["crc_width"])}
 
 
-def validate(ctx, traces, stage, mutant="", count_states=True, batch_size=1500):
-    return tracecheck.validate(ctx, "CrcTrace", traces, stage, cfg=CFG_TRACE.format(mutant=mutant), workers=8,
-                               batch_size=batch_size, count_states=count_states)
+_EXP = re.compile(r'^"(<<778, .*>>)"$', re.M)
+
+
+def validate(ctx, traces, stage, mutant="", count_states=True, batch_size=3000):
+    """Batch validation by CrcTrace (same protocol as harness.tracecheck.validate; additionally collects the
+    "expected" lines).  Returns verdicts aligned with traces: ("ACC", steps, own, matches) or ("REJ", step, clause, expected)."""
+    verdicts = [None] * len(traces)
+    st_name = "%s/validate" % stage
+    for bi, off in enumerate(range(0, len(traces), batch_size)):
+        part = traces[off:off + batch_size]
+        path = os.path.join(ctx.tmp, "CrcTrace_%s_%d.json" % (re.sub(r"\W", "_", stage), off))
+        with open(path, "w") as f:
+            json.dump({"traces": part}, f, separators=(",", ":"))
+        r = ctx.tlc("CrcTrace", stage=st_name, cfg_text=CFG_TRACE.format(mutant=mutant), env={"TRACE_FILE": path}, workers=8,
+                    timeout=3000, count=False)
+        st = ctx.cov["stages"][st_name]
+        st["batches"] = bi + 1
+        st["trace_states"] = st.get("trace_states", 0) + r.distinct if bi else r.distinct
+        if count_states:
+            ctx.cov["trace_states_checked"] = ctx.cov.get("trace_states_checked", 0) + r.distinct
+        expected = {}
+        for m in _EXP.finditer(r.out):
+            v = json.loads(m.group(1).replace("<<", "[").replace(">>", "]"))
+            expected[v[1]] = v[2]
+        for txt in r.printed():
+            if txt.startswith('<<"ACC"') or txt.startswith('<<"REJ"'):
+                v = json.loads(txt.replace("<<", "[").replace(">>", "]"))
+                tid = v[1]
+                if v[0] == "ACC":
+                    verdicts[off + tid - 1] = ("ACC",) + tuple(v[2:])
+                else:
+                    verdicts[off + tid - 1] = ("REJ", v[2], v[3], expected.get(tid))
+        os.unlink(path)
+    missing = [j for j, v in enumerate(verdicts) if v is None]
+    if missing:
+        raise MachineryError("CrcTrace: no verdict for %d traces (first: %d) in stage %s" % (len(missing), missing[0], stage))
+    ctx.cov["traces_validated_against_impl"] += len(traces)
+    return verdicts
 
 
 def random_params(rng, wmax):
@@ -312,10 +341,23 @@ def pname(p):
 
 
 # ------------------------------------------------------------------ the check
+INVARIANTS = ["CrcIsFold", "CrcIsCompute", "RegOfBitStream", "OwnCrcMatches", "OtherTrailerNoMatch", "OwnCrcMatchesDef"]
+
+
+def cfg_mc(bounds, mutant="", invariants=INVARIANTS):
+    return CFG_MC.format(mutant=mutant, invs="\n".join("INVARIANT " + i for i in invariants), **bounds)
+
+
+def sim_cost(w, dw):
+    """rough relative cost of building the simulator of Processor(w, dw) (pysim compiles w XOR trees of ~(w+dw)/2 terms)"""
+    return w * (w + dw) * (w + dw)
+
+
 def run(ctx):
     th = ctx.thorough
     rng = ctx.rng
     from amaranth.lib.crc import catalog
+    import amaranth.sim  # noqa: F401  (imported before any fork)
     table = load_table()
     by_name = {e["name"]: e for e in table}
     live_names = sorted(n for n in dir(catalog) if n.startswith("CRC"))
@@ -325,193 +367,217 @@ def run(ctx):
         ctx.notes.append("published entries missing from amaranth.lib.crc.catalog (not checked): %s" % missing)
     if extra:
         ctx.notes.append("catalogue entries without a published check value in data/crc_check_values.json "
-                         "(checked against the model with their own parameters only): %s" % extra)
+                         "(not covered by the catalogue stage): %s" % extra)
     names = [n for n in live_names if n in by_name]
     if len(names) < 100:
         raise MachineryError("only %d catalogue entries with a published check value" % len(names))
 
-    # ---------------- mc + generator: TLC jobs run concurrently with the simulations -----------------------
+    # ---------------- mc + generator: TLC jobs run in threads, concurrently with the simulations -------------
     mc_bounds = dict(widths="{1, 2, 3, 4}", dws="{1, 2, 3, 4}", maxwords=6, maxbits=10) if th else \
         dict(widths="{1, 2, 3}", dws="{1, 2, 3, 4}", maxwords=5, maxbits=6)
+    cov_bounds = dict(widths="{1, 2}", dws="{1, 2, 3, 4}", maxwords=5, maxbits=6)
+    small_bounds = dict(widths="{1, 2}", dws="{1, 2, 3}", maxwords=4, maxbits=6)
     gen_jobs = []
     if th:
         for wd in (1, 2, 3, 4):
             for d in (1, 2, 3, 4):
                 gen_jobs.append(dict(widths="{%d}" % wd, dws="{%d}" % d, maxwords=6, maxbits=9))
     else:
-        gen_jobs.append(dict(widths="{1, 2, 3}", dws="{1, 2, 3, 4}", maxwords=6, maxbits=7))
-    mutants = [("tx_msb_always", "OwnCrcMatches"), ("start_drops_word", "CrcIsFold"),
-               ("refin_ignored", "RegOfBitStream")]
-    small_bounds = dict(widths="{1, 2}", dws="{1, 2, 3}", maxwords=4, maxbits=6)
+        gen_jobs.append(dict(widths="{1, 2, 3}", dws="{1, 2, 3, 4}", maxwords=5, maxbits=6))
+    mutants = [("tx_msb_always", "OwnCrcMatches", INVARIANTS),
+               ("tx_msb_always", "OtherTrailerNoMatch", ["OtherTrailerNoMatch"]),
+               ("start_drops_word", "CrcIsFold", INVARIANTS),
+               ("refin_ignored", "RegOfBitStream", INVARIANTS)]
 
     def tlc_mc():
-        r = ctx.tlc("Crc", stage="mc/processor", cfg_text=CFG_MC.format(mutant="", **mc_bounds), workers=8,
-                    args=("-coverage", "1"), timeout=3000)
-        ctx.require_actions(r, ["Next"], "mc/processor")
+        r = ctx.tlc("Crc", stage="mc/processor", cfg_text=cfg_mc(mc_bounds), workers=8, timeout=3000)
+        m = re.search(r"Finished computing initial states: (\d+) distinct", r.out)
+        if not m or r.distinct <= 4 * int(m.group(1)):
+            raise MachineryError("vacuous model run mc/processor: %d states from %s initial states" % (r.distinct, m and m.group(1)))
+        return r
+
+    def tlc_cov():
+        r = ctx.tlc("Crc", stage="mc/processor-coverage", cfg_text=cfg_mc(cov_bounds), workers=4, args=("-coverage", "1"),
+                    count=False)
+        ctx.require_actions(r, ["Init", "Next"], "mc/processor-coverage")
         return r
 
     def tlc_mutant(m):
-        return ctx.tlc("Crc", stage="mc/mutant-" + m[0], cfg_text=CFG_MC.format(mutant=m[0], **small_bounds),
+        return ctx.tlc("Crc", stage="mc/mutant-%s-%s" % (m[0], m[1]), cfg_text=cfg_mc(small_bounds, m[0], m[2]),
                        workers=2, expect_violation=m[1], count=False)
 
     def tlc_gen(b):
         return ctx.tlc("Crc", stage="small/gen-w%s-d%s" % (re.sub(r"\W", "", b["widths"]), re.sub(r"\W", "", b["dws"])),
                        cfg_text=CFG_GEN.format(**b), workers=4 if th else 8, timeout=3000)
 
-    ex = ThreadPoolExecutor(4 if th else 3)
-    fut_mut = [ex.submit(tlc_mutant, m) for m in mutants]
+    ex = ThreadPoolExecutor(5)
     fut_gen = [ex.submit(tlc_gen, b) for b in gen_jobs]
     fut_mc = ex.submit(tlc_mc)
+    fut_misc = [ex.submit(tlc_cov)] + [ex.submit(tlc_mutant, m) for m in mutants]
 
-    # ---------------- catalogue: published check values ------------------------------------------------------
+    # ---------------- catalogue: published check values; sw: random messages --------------------------------
     check_words = list(CHECK_STRING)
-    selfcheck = []
+    batch, roles = [], []          # one TLC run judges: table rows (spec self-check), real catalogue values, sw cases
     for n in names:
         e = by_name[n]
-        selfcheck.append(sw_trace(e["params"], 8, check_words, e["check"]))
-        selfcheck.append(res_trace(e["params"], e["residue"]))
-    vs = validate(ctx, selfcheck, "catalogue/spec-selfcheck", count_states=True)
-    ctx.cov["traces_validated_against_impl"] -= len(selfcheck)      # these are table rows, not executions
-    for j, v in enumerate(vs):
-        if v[0] != "ACC":
-            raise MachineryError("Crc.tla disagrees with the published table for %s (%s): TLC computed %r" % (
-                names[j // 2], "check" if j % 2 == 0 else "residue", v))
-    # mutant model must disagree with the published table
-    with_xor = [j for j, n in enumerate(names) if by_name[n]["params"]["xor_output"] != 0]
-    sample = [selfcheck[2 * j] for j in with_xor[:12]]
-    vm = validate(ctx, sample, "catalogue/mutant-xor_skipped", mutant="xor_skipped", count_states=False)
-    ctx.cov["traces_validated_against_impl"] -= len(sample)
-    if not sample or any(v[0] != "REJ" for v in vm):
-        raise MachineryError("mutant model xor_skipped still reproduces published check values: %r" % (vm,))
-    ctx.cov["stages"]["catalogue/mutant-xor_skipped/validate"]["mutant_rejected"] = len(sample)
+        batch.append(sw_trace(e["params"], 8, check_words, e["check"]))
+        roles.append(("table", n, "check"))
+        batch.append(res_trace(e["params"], e["residue"]))
+        roles.append(("table", n, "residue"))
+    n_table = len(batch)
 
-    real = pmap(_sw_job, [(("catalog", n), 8, check_words) for n in names], chunksize=8)
-    real_res = pmap(_residue_job, [("catalog", n) for n in names], chunksize=8)
-    cat_traces, cat_meta = [], []
-    for n, rv, rr in zip(names, real, real_res):
-        e = by_name[n]
-        w = e["params"]["crc_width"]
-        for what, val in (("compute", rv), ("residue", rr)):
-            meta = {"stage": "catalogue", "name": n, "clause": what}
-            if val[0] != "ok" or not (0 <= val[1] < (1 << w)):
-                ctx.violation(meta, "catalog.%s: %s raised / returned out of range: %r" % (n, what, val[1]),
-                              replay={"kind": "catalogue", "name": n})
-                continue
-            cat_traces.append(sw_trace(e["params"], 8, check_words, val[1]) if what == "compute"
-                              else res_trace(e["params"], val[1]))
-            cat_meta.append((meta, val[1]))
-            ctx.case(("catalogue", n, what))
-    vs = validate(ctx, cat_traces, "catalogue/code")
-    for v, (meta, val) in zip(vs, cat_meta):
-        if v[0] == "REJ":
-            e = by_name[meta["name"]]
-            ctx.violation(meta, "catalog.%s: %s returned %#x; the Williams model with the published parameters (%s) gives %#x "
-                          "(published check %#x, residue %#x)" % (
-                              meta["name"], "compute(b'123456789')" if meta["clause"] == "compute" else "residue()", val,
-                              pname(e["params"]), unbits(v[3]) if len(v) > 3 else -1, e["check"], e["residue"]),
-                          replay={"kind": "catalogue", "name": meta["name"]})
-    ctx.sample({"stage": "catalogue", "name": names[0], "published": {k: (hex(v) if isinstance(v, int) and not isinstance(v, bool) else v)
-                                                                    for k, v in by_name[names[0]]["params"].items()},
-                "check": hex(by_name[names[0]]["check"]), "real_compute": hex(real[0][1]) if real[0][0] == "ok" else real[0][1]})
-
-    # ---------------- which catalogue entries / widths ------------------------------------------------------
     uniq = {}
-    for n in names:                                          # aliases are the same object: simulate once
+    for n in names:                                          # aliases are the same object: exercise it once
         uniq.setdefault(id(getattr(catalog, n)), n)
     uniq_names = sorted(uniq.values())
-    odd_widths = [n for n in uniq_names if by_name[n]["params"]["crc_width"] in (3, 4, 5, 6, 7, 10, 11, 13, 15, 17, 21, 30, 31, 40, 82)
-                  or by_name[n]["params"]["reflect_input"] != by_name[n]["params"]["reflect_output"]]
-    if th:
-        hw_names = uniq_names
-    else:
-        rest = [n for n in uniq_names if n not in odd_widths]
-        seen_w = set()
-        firsts = []
-        for n in odd_widths:                                 # one per unusual width + cross-endian ones
-            key = (by_name[n]["params"]["crc_width"], by_name[n]["params"]["reflect_input"], by_name[n]["params"]["reflect_output"])
-            if key not in seen_w:
-                seen_w.add(key)
-                firsts.append(n)
-        hw_names = sorted(set(firsts + rng.sample(rest, min(len(rest), 40 - min(40, len(firsts)) + 12))))
-    hw_dws = [1, 3, 8, 16, 32]
 
-    # ---------------- sw: compute() on random messages (code -> spec) ---------------------------------------
     sw_jobs, sw_meta = [], []
+    for n in names:
+        sw_jobs.append((("catalog", n), 8, check_words))
+        sw_meta.append({"stage": "catalogue", "name": n, "params": by_name[n]["params"], "dw": 8, "words": check_words})
     for n in uniq_names:
-        w = by_name[n]["params"]["crc_width"]
         for dw in ([1, 3, 8, 13, 16, 32, 64] if th else [1, 3, 8, 16, 32]):
             for rep in range(3 if th else 1):
                 ln = rng.choice([0, 1, 2, 3, 5, 8, 13]) if dw > 1 else rng.choice([0, 1, 7, 8, 9, 31, 40])
                 words = [rng.getrandbits(dw) for _ in range(ln)]
-                if rep == 0 and dw in (8, 16, 32):           # the check string regrouped into wider words
+                if rep == 0 and dw in (16, 32):              # (part of) the check string regrouped into wider words
                     words = regroup(CHECK_STRING[:8], dw, by_name[n]["params"]["reflect_input"])
                 sw_jobs.append((("catalog", n), dw, words))
                 sw_meta.append({"stage": "sw", "name": n, "params": by_name[n]["params"], "dw": dw, "words": words})
-    for j in range(600 if th else 150):
+    for j in range(600 if th else 120):
         p = random_params(rng, 90)
         dw = rng.choice([1, 2, 3, 5, 8, 16, 24, 32, 33, 64, 70])
         words = [rng.getrandbits(dw) for _ in range(rng.choice([0, 1, 2, 3, 5, 8]))]
         sw_jobs.append((("custom", p), dw, words))
         sw_meta.append({"stage": "sw", "name": None, "params": p, "dw": dw, "words": words})
-    sw_out = pmap(_sw_job, sw_jobs, chunksize=32)
-    sw_traces, sw_keep = [], []
+    sw_out = pmap(_sw_job, sw_jobs, chunksize=64)
+    res_out = pmap(_residue_job, [("catalog", n) for n in names], chunksize=16)
+
+    def label(meta):
+        return ("catalog." + meta["name"]) if meta["name"] else pname(meta["params"])
+
     for meta, out in zip(sw_meta, sw_out):
         w = meta["params"]["crc_width"]
-        key = {"stage": "sw", "name": meta["name"], "params": pname(meta["params"]), "dw": meta["dw"], "words": meta["words"]}
+        key = {"stage": meta["stage"], "name": meta["name"], "params": pname(meta["params"]), "dw": meta["dw"], "words": meta["words"]}
         if out[0] != "ok" or not isinstance(out[1], int) or not (0 <= out[1] < (1 << w)):
-            ctx.violation(dict(key, clause="compute_raises"), "%s(%d).compute(%r) raised / out of range: %r" % (
-                meta["name"] or pname(meta["params"]), meta["dw"], meta["words"], out[1]), replay={"kind": "sw", **meta})
+            ctx.violation(dict(key, clause="compute_raises"), "%s(%d).compute(%r) raised / is out of range: %r" % (
+                label(meta), meta["dw"], meta["words"], out[1]), replay={"kind": "sw", **meta})
             continue
-        sw_traces.append(sw_trace(meta["params"], meta["dw"], meta["words"], out[1]))
-        sw_keep.append((meta, key, out[1]))
-        ctx.case(("sw", meta["name"], pname(meta["params"]), meta["dw"], tuple(meta["words"])), nontrivial=len(meta["words"]) > 0)
-    vs = validate(ctx, sw_traces, "sw")
-    for v, (meta, key, out) in zip(vs, sw_keep):
-        if v[0] == "REJ":
-            ctx.violation(dict(key, clause=v[2]), "%s(%d).compute(%r) returned %#x; the Williams model gives %#x" % (
-                ("catalog." + meta["name"]) if meta["name"] else pname(meta["params"]), meta["dw"], meta["words"], out,
-                unbits(v[3]) if len(v) > 3 else -1), replay={"kind": "sw", **meta})
-    ctx.sample({"stage": "sw", "algorithm": sw_keep[-1][0]["name"] or pname(sw_keep[-1][0]["params"]), "dw": sw_keep[-1][0]["dw"],
-                "words": sw_keep[-1][0]["words"], "real_compute": hex(sw_keep[-1][2]), "verdict": [str(x) for x in vs[-1][:3]]})
+        batch.append(sw_trace(meta["params"], meta["dw"], meta["words"], out[1]))
+        roles.append(("sw", meta, key, out[1]))
+        ctx.case((meta["stage"], meta["name"], pname(meta["params"]), meta["dw"], tuple(meta["words"])), nontrivial=len(meta["words"]) > 0)
+    for n, out in zip(names, res_out):
+        e = by_name[n]
+        key = {"stage": "catalogue", "name": n, "clause": "residue"}
+        if out[0] != "ok" or not (0 <= out[1] < (1 << e["params"]["crc_width"])):
+            ctx.violation(key, "catalog.%s(8).residue() raised / is out of range: %r" % (n, out[1]),
+                          replay={"kind": "residue", "name": n, "params": e["params"]})
+            continue
+        batch.append(res_trace(e["params"], out[1]))
+        roles.append(("res", n, key, out[1]))
+        ctx.case(("residue", n))
+
+    def judge_sw():
+        vs = validate(ctx, batch, "sw")
+        ctx.cov["traces_validated_against_impl"] -= n_table          # table rows are not executions
+        for v, role in zip(vs, roles):
+            if role[0] == "table":
+                if v[0] != "ACC":
+                    raise MachineryError("Crc.tla disagrees with the published table for %s (%s): TLC says %r" % (role[1], role[2], v))
+            elif v[0] == "REJ" and role[0] == "sw":
+                meta, key, out = role[1:]
+                e = by_name.get(meta["name"])
+                ctx.violation(dict(key, clause=v[2]), "%s(%d).compute(%r) returned %#x; the Williams model%s gives %#x%s" % (
+                    label(meta), meta["dw"], meta["words"], out,
+                    (" with the published parameters (%s)" % pname(meta["params"])) if e else "", unbits(v[3] or []),
+                    (" (published check value %#x)" % e["check"]) if e and meta["stage"] == "catalogue" else ""),
+                    replay={"kind": "sw", **meta})
+            elif v[0] == "REJ":
+                n, key, out = role[1:]
+                ctx.violation(key, "catalog.%s(8).residue() returned %#x; the Williams model with the published parameters gives %#x "
+                              "(published residue %#x)" % (n, out, unbits(v[3] or []), by_name[n]["residue"]),
+                              replay={"kind": "residue", "name": n, "params": by_name[n]["params"]})
+        st = ctx.cov["stages"]["sw/validate"]
+        st.update({"published_table_rows_reproduced_by_spec": n_table, "catalogue_check_strings": len(names),
+                   "compute_cases": sum(1 for r in roles if r[0] == "sw"), "residue_cases": sum(1 for r in roles if r[0] == "res")})
+        return vs
+
+    def judge_mutant_table():
+        # the mutant model must disagree with the published table
+        with_xor = [j for j, n in enumerate(names) if by_name[n]["params"]["xor_output"] != 0]
+        sample = [batch[2 * j] for j in with_xor[:12]]
+        vm = validate(ctx, sample, "catalogue/mutant-xor_skipped", mutant="xor_skipped", count_states=False)
+        ctx.cov["traces_validated_against_impl"] -= len(sample)
+        if not sample or any(v[0] != "REJ" for v in vm):
+            raise MachineryError("mutant model xor_skipped still reproduces published check values: %r" % (vm,))
+        ctx.cov["stages"]["catalogue/mutant-xor_skipped/validate"]["mutant_rejected"] = len(sample)
+
+    fut_sw = ex.submit(judge_sw)
+    fut_misc.append(ex.submit(judge_mutant_table))
+    ctx.sample({"stage": "catalogue", "name": names[0],
+                "published": {k: (hex(v) if isinstance(v, int) and not isinstance(v, bool) else v) for k, v in by_name[names[0]]["params"].items()},
+                "check": hex(by_name[names[0]]["check"]), "real_compute": hex(sw_out[0][1]) if sw_out[0][0] == "ok" else sw_out[0][1]})
 
     # ---------------- hw: the real Processor, per-cycle (code -> spec) ---------------------------------------
-    n_target = 60
+    def unusual(n):
+        p = by_name[n]["params"]
+        return p["crc_width"] not in (8, 16, 32) or p["reflect_input"] != p["reflect_output"]
+    if th:
+        hw_names = uniq_names
+    else:
+        seen, firsts = set(), []
+        for n in uniq_names:                                 # one entry per unusual width / cross-endian combination
+            p = by_name[n]["params"]
+            k = (p["crc_width"], p["reflect_input"], p["reflect_output"])
+            if unusual(n) and k not in seen:
+                seen.add(k)
+                firsts.append(n)
+        rest = [n for n in uniq_names if n not in firsts]
+        hw_names = sorted(set(firsts + rng.sample(rest, min(len(rest), 24))))
+    n_target = 120 if th else 50
     hw_jobs, hw_meta = [], []
     for n in hw_names:
-        for dw in hw_dws:
-            for rep in range(4 if th else 1):
+        w = by_name[n]["params"]["crc_width"]
+        for dw in [1, 3, 8, 16, 32]:
+            if not th and sim_cost(w, dw) > sim_cost(32, 32):
+                continue                                     # quick tier: the widest XOR networks are left to the thorough tier
+            reps = 1 if (not th or sim_cost(w, dw) > sim_cost(32, 16)) else 3
+            for rep in range(reps):
                 seed = rng.getrandbits(40)
                 hw_jobs.append((("catalog", n), dw, seed, n_target))
                 hw_meta.append({"stage": "hw", "name": n, "params": by_name[n]["params"], "dw": dw, "seed": seed, "n": n_target})
-    for j in range(400 if th else 60):
+    for j in range(300 if th else 40):
         p = random_params(rng, 40)
         w = p["crc_width"]
         divs = [d for d in range(1, w + 1) if w % d == 0]
-        dw = rng.choice(divs) if rng.random() < 0.6 else rng.choice([1, 2, 3, 5, 8, 13, 32, 40, w + 1, 2 * w])
+        dw = rng.choice(divs) if rng.random() < 0.6 else rng.choice([1, 2, 3, 5, 8, 13, 24, w + 1, 2 * w])
         seed = rng.getrandbits(40)
         hw_jobs.append((("custom", p), dw, seed, n_target))
         hw_meta.append({"stage": "hw", "name": None, "params": p, "dw": dw, "seed": seed, "n": n_target})
-    hw_out = pmap(_hw_job, hw_jobs, chunksize=2)
+    order = sorted(range(len(hw_jobs)), key=lambda j: -sim_cost(hw_meta[j]["params"]["crc_width"], hw_meta[j]["dw"]))
+    hw_jobs = [hw_jobs[j] for j in order]
+    hw_meta = [hw_meta[j] for j in order]
+    hw_out = pmap(_hw_job, hw_jobs, chunksize=1)
     hw_traces, hw_keep = [], []
     for meta, out in zip(hw_meta, hw_out):
         key = {"stage": "hw", "name": meta["name"], "params": pname(meta["params"]), "dw": meta["dw"]}
         if out[0] != "ok":
             ctx.violation(dict(key, clause="simulation_raises"), "Processor(%s, data_width=%d) failed in simulation: %s" % (
-                meta["name"] or pname(meta["params"]), meta["dw"], out[1]), replay={"kind": "hw", **meta})
+                label(meta), meta["dw"], out[1]), replay={"kind": "hw", **meta})
             continue
         hw_traces.append(hw_trace(meta["params"], meta["dw"], out[1]))
         hw_keep.append((meta, key, out[2]))
-    vs = validate(ctx, hw_traces, "hw", batch_size=400)
+    vs = validate(ctx, hw_traces, "hw", batch_size=3000)
     own_expected = own_seen = bad_trailers = matches = 0
     for v, (meta, key, info), t in zip(vs, hw_keep, hw_traces):
         if v[0] == "REJ":
             step, clause = v[1], v[2]
-            exp = v[3] if len(v) > 3 else None
+            exp = v[3] or None
             ctx.violation(dict(key, clause=clause),
-                          "Processor of %s, data_width=%d (seed %d): clause %s broken at cycle %d; expected crc=%s match=%s; "
-                          "cycles (start, valid, data, crc, match) around it: %r" % (
-                              ("catalog." + meta["name"]) if meta["name"] else pname(meta["params"]), meta["dw"], meta["seed"],
-                              clause, step, hex(unbits(exp[0])) if exp else "?", exp[1] if exp else "?",
+                          "Processor of %s, data_width=%d (seed %d): clause %s broken at cycle %d; expected crc=%s match_detected=%s; "
+                          "cycles (start, valid, data, crc, match_detected) up to it: %r" % (
+                              label(meta), meta["dw"], meta["seed"], clause, step, hex(unbits(exp[0])) if exp else "?",
+                              exp[1] if exp else "?",
                               [(s[0], s[1], hex(unbits(s[2])), hex(unbits(s[3])), s[4]) for s in t["steps"][max(0, step - 4):step]]),
                           replay={"kind": "hw", **meta})
         else:
@@ -522,45 +588,48 @@ def run(ctx):
         ctx.case(("hw", meta["name"], pname(meta["params"]), meta["dw"], meta["seed"]),
                  nontrivial=sum(1 for s in t["steps"] if s[1]) > 3)
     st = ctx.cov["stages"]["hw/validate"]
-    st.update({"traces": len(hw_traces), "cycles": sum(len(t["steps"]) for t in hw_traces), "own_crc_trailers_sent": own_expected,
-               "own_crc_trailers_recognised_by_spec": own_seen, "other_trailers_sent": bad_trailers,
-               "cycles_with_match_detected": matches})
+    st.update({"traces": len(hw_traces), "catalogue_entries": len(hw_names), "cycles": sum(len(t["steps"]) for t in hw_traces),
+               "own_crc_trailers_sent": own_expected, "cycles_where_spec_sees_own_crc_trailer": own_seen,
+               "other_trailers_sent": bad_trailers, "cycles_with_match_detected": matches})
     if not ctx.violations and (own_seen < own_expected or own_seen < 20):
         raise MachineryError("vacuous hardware traces: the driver sent %d own-CRC trailers but CrcTrace recognised only %d "
                              "(transmission order of the driver and of the specification differ)" % (own_expected, own_seen))
     if hw_keep:
-        m0 = hw_keep[0][0]
-        ctx.sample({"stage": "hw", "algorithm": m0["name"] or pname(m0["params"]), "dw": m0["dw"], "seed": m0["seed"],
+        m0 = hw_keep[-1][0]
+        ctx.sample({"stage": "hw", "algorithm": label(m0), "dw": m0["dw"], "seed": m0["seed"],
                     "first_cycles(start,valid,data,crc,match)": [(s[0], s[1], hex(unbits(s[2])), hex(unbits(s[3])), s[4])
-                                                                  for s in hw_traces[0]["steps"][:8]],
-                    "verdict": [str(x) for x in vs[0]]})
+                                                                  for s in hw_traces[-1]["steps"][:8]],
+                    "verdict": [str(x) for x in vs[-1]]})
 
     # ---------------- binding demonstration: corrupted traces must be rejected -------------------------------
-    good = next((t for t, v in zip(hw_traces, vs) if v[0] == "ACC" and v[3] > 0 and len(t["steps"]) > 20), None)
+    good = next((t for t, v in zip(hw_traces, vs) if v[0] == "ACC" and v[3] > 0 and len(t["steps"]) > 20
+                 and t["p"]["w"] <= 32), None)
     if good is None:
-        raise MachineryError("no accepted hardware trace with match_detected to corrupt")
-    bad1 = json.loads(json.dumps(good))
-    j = max(k for k, s in enumerate(bad1["steps"]) if s[0] == 1) + 2
-    j = min(j, len(bad1["steps"]) - 1)
-    bad1["steps"][j][3][-1] ^= 1                          # one wrong crc bit after a start
-    bad2 = json.loads(json.dumps(good))
-    for s in bad2["steps"]:
-        s[4] = 0                                          # a hook that never reports match_detected
-    bad3 = json.loads(json.dumps(sw_traces[0]))
-    bad3["out"][0] ^= 1                                   # wrong software CRC
-    bad4 = json.loads(json.dumps(good))
-    bad4["p"]["poly"] = bad4["p"]["poly"][:-1]            # malformed parameters
-    vb = validate(ctx, [bad1, bad2, bad3, bad4], "binding-demo", count_states=False)
-    ctx.cov["traces_validated_against_impl"] -= 4
-    if any(v[0] != "REJ" for v in vb):
-        raise MachineryError("binding demo: corrupted traces were accepted: %r" % (vb,))
-    ctx.cov["stages"]["binding-demo/validate"]["corrupted_rejected"] = [[str(x) for x in v[:3]] for v in vb]
+        if not ctx.violations:
+            raise MachineryError("no accepted hardware trace with match_detected to corrupt")
+    else:
+        bad1 = json.loads(json.dumps(good))
+        j = min(max(k for k, s in enumerate(bad1["steps"]) if s[0] == 1) + 2, len(bad1["steps"]) - 1)
+        bad1["steps"][j][3][-1] ^= 1                      # one wrong crc bit after a start
+        bad2 = json.loads(json.dumps(good))
+        for s in bad2["steps"]:
+            s[4] = 0                                      # a hook that never reports match_detected
+        bad3 = json.loads(json.dumps(batch[n_table]))
+        bad3["out"][0] ^= 1                               # wrong software CRC
+        bad4 = json.loads(json.dumps(good))
+        bad4["p"]["poly"] = bad4["p"]["poly"][:-1]        # malformed parameters
+        vb = validate(ctx, [bad1, bad2, bad3, bad4], "binding-demo", count_states=False)
+        ctx.cov["traces_validated_against_impl"] -= 4
+        if any(v[0] != "REJ" for v in vb):
+            raise MachineryError("binding demo: corrupted traces were accepted: %r" % (vb,))
+        ctx.cov["stages"]["binding-demo/validate"]["corrupted_rejected"] = [[str(x) for x in v[:3]] for v in vb]
 
     # ---------------- small exhaustive: values printed by TLC vs the real compute (spec -> code) ------------
     n_eval = n_cases = 0
     for b, f in zip(gen_jobs, fut_gen):
         r = f.result()
         cases = parse_gen(r.out)
+        r.out = ""
         if not cases:
             raise MachineryError("generator printed nothing for %r" % (b,))
         n_cases += len(cases)
@@ -570,12 +639,17 @@ def run(ctx):
                 key = {"stage": "small", "params": pname(params), "dw": dw, "words": words}
                 what = "residue()" if words is None else "compute(%r)" % (words,)
                 ctx.violation(key, "%s(%d).%s = %r; Crc.tla gives %r" % (pname(params), dw, what, got, exp),
-                              replay={"kind": "small", "params": params, "dw": dw, "words": words, "expected": exp})
+                              replay={"kind": "sw" if words is not None else "residue", "name": None, "params": params,
+                                      "dw": dw, "words": words})
         del cases
     ctx.add_cases(n_eval, n_eval)
     ctx.cov["stages"]["small/compare"] = {"parameter_sets_x_data_widths": n_cases, "crc_values_compared": n_eval}
 
-    for f in fut_mut:
+    sw_vs = fut_sw.result()
+    k = max(j for j, r in enumerate(roles) if r[0] == "sw")
+    ctx.sample({"stage": "sw", "algorithm": label(roles[k][1]), "dw": roles[k][1]["dw"], "words": roles[k][1]["words"],
+                "real_compute": hex(roles[k][3]), "verdict": [str(x) for x in sw_vs[k][:3]]})
+    for f in fut_misc:
         f.result()
     fut_mc.result()
     ex.shutdown()
@@ -617,51 +691,29 @@ def parse_gen(out):
 def replay(ctx, rep):
     r = rep["replay"]
     kind = r["kind"]
-    table = {e["name"]: e for e in load_table()}
-    if kind == "catalogue":
-        e = table[r["name"]]
-        rv = _sw_job((("catalog", r["name"]), 8, list(CHECK_STRING)))
-        rr = _residue_job(("catalog", r["name"]))
-        print("real compute:", rv, "real residue:", rr, "published:", hex(e["check"]), hex(e["residue"]))
-        traces = []
-        if rv[0] == "ok":
-            traces.append(sw_trace(e["params"], 8, list(CHECK_STRING), rv[1] & ((1 << e["params"]["crc_width"]) - 1)))
-        if rr[0] == "ok":
-            traces.append(res_trace(e["params"], rr[1] & ((1 << e["params"]["crc_width"]) - 1)))
-        vs = validate(ctx, traces, "replay")
-        bad = rv[0] != "ok" or rr[0] != "ok" or any(v[0] == "REJ" for v in vs)
-    elif kind == "sw":
-        src = ("catalog", r["name"]) if r["name"] else ("custom", r["params"])
+    src = ("catalog", r["name"]) if r.get("name") else ("custom", r["params"])
+    w = r["params"]["crc_width"]
+    vs = None
+    if kind == "sw":
         out = _sw_job((src, r["dw"], r["words"]))
-        print("real compute:", out)
-        bad = out[0] != "ok"
-        if not bad:
+        print("real compute:", out if out[0] != "ok" else hex(out[1]))
+        if out[0] == "ok" and 0 <= out[1] < (1 << w):
             vs = validate(ctx, [sw_trace(r["params"], r["dw"], r["words"], out[1])], "replay")
-            bad = vs[0][0] == "REJ"
+    elif kind == "residue":
+        out = _residue_job(src)
+        print("real residue:", out if out[0] != "ok" else hex(out[1]))
+        if out[0] == "ok" and 0 <= out[1] < (1 << w):
+            vs = validate(ctx, [res_trace(r["params"], out[1])], "replay")
     elif kind == "hw":
-        src = ("catalog", r["name"]) if r["name"] else ("custom", r["params"])
         out = _hw_job((src, r["dw"], r["seed"], r["n"]))
-        bad = out[0] != "ok"
-        if bad:
+        if out[0] != "ok":
             print(out[1])
         else:
             vs = validate(ctx, [hw_trace(r["params"], r["dw"], out[1])], "replay")
-            bad = vs[0][0] == "REJ"
-    elif kind == "small":
-        from amaranth.lib.crc import Algorithm
-        par = Algorithm(**r["params"])(r["dw"])
-        if r["words"] is None:
-            out = _residue_job(("custom", r["params"]))
-            vs = validate(ctx, [res_trace(r["params"], out[1])], "replay") if out[0] == "ok" else [("REJ",)]
-        else:
-            out = _sw_job((("custom", r["params"]), r["dw"], r["words"]))
-            vs = validate(ctx, [sw_trace(r["params"], r["dw"], r["words"], out[1])], "replay") if out[0] == "ok" else [("REJ",)]
-        print("real:", out, par)
-        bad = vs[0][0] == "REJ"
     else:
         raise MachineryError("unknown replay kind %r" % kind)
-    print("replay verdict:", vs if not (kind in ("sw", "hw") and bad and 'vs' not in dir()) else "exception")
-    if bad:
+    print("replay verdict:", vs[0] if vs else "the real code raised / returned an out-of-range value")
+    if vs is None or vs[0][0] == "REJ":
         print("VIOLATION property=C16 replay=(same)")
         return 1
     return 0
